@@ -135,6 +135,14 @@ def c18_3(ctx, ss):
             md = [d for d in flow.defs if d.name == masses_name and d.kind == "assign"]
             if len(md) == 1 and isinstance(md[0].value, ast.List) and all(isinstance(e, ast.Name) for e in md[0].value.elts):
                 mass_names = [e.id for e in md[0].value.elts]
+        if len(mass_names) != 2 and masses_name is not None:
+            md = [d for d in flow.defs if d.name == masses_name and d.kind == "assign"]
+            if md and all(isinstance(d.value, (ast.Dict, ast.DictComp)) or (isinstance(d.value, ast.Call) and txt(d.value.func) == "dict") for d in md):
+                a1 = ml_all[0].args[1]
+                ctx.violation("C18.3", k + " :: pairing", where(ff, ml_all[0]),
+                              f"{cls_}: the invariant mass handed to a vertex's line shape is looked up by `{txt(a1.slice)}` in a dictionary, not by the vertex's position: "
+                              "two vertexes with the same key (an amplitude with the same resonance twice) get the same mass")
+                continue
         if len(mass_names) != 2:
             raise AnchorMissing(f"{cls_}.make_linefactor: the [mass1, mass2] list handed to make_lineshape was not found")
         for d in [d for d in flow.defs if d.kind == "assign" and isinstance(d.value, ast.JoinedStr) and d.name in mass_names]:
@@ -290,6 +298,7 @@ TEXT = ["make_spinfactor", "make_linefactor", "make_lineshape", "make_amplitude"
 REN = {"GooFitPyChain": "<CLS>", "GooFitChain": "<CLS>"}
 ALLOWED_HOLES = {("{L}", "{L}"), }
 ALLOWED_SKEL = {("L =", "L ="), }
+ALLOWED_LOGIC = {("self.L", "int(self.L)"), }   # the Python generator prints the orbital momentum as an int: reviewed, same value
 
 
 def c18_5(ctx, ss, rule="C18.5", methods=None):
@@ -315,8 +324,11 @@ def c18_5(ctx, ss, rule="C18.5", methods=None):
         ha, hb = sibling.holes(fa.node, REN), sibling.holes(fb.node, REN)
         ds = sibling.diff(sa, sb)
         dh = [x for x in sibling.diff(ha, hb) if x not in ALLOWED_HOLES]
-        if not ds and not dh:
-            ctx.holds(rule, k, where(fb, fb.node), f"{m}: same control skeleton ({len(sa)} statements) and same {len(ha)} data holes", len(sa) + len(ha))
+        dl = [] if (ds or dh) else [x for x in sibling.logic_diff(fa.node, fb.node, REN) if x not in ALLOWED_LOGIC]
+        if dl:
+            ctx.violation(rule, k, where(fb, fb.node), f"{m}: the two generators compute different things outside the target-language text: C++ `{dl[0][0][:80]}` vs Python `{dl[0][1][:80]}`")
+        elif not ds and not dh:
+            ctx.holds(rule, k, where(fb, fb.node), f"{m}: same control skeleton ({len(sa)} statements), same {len(ha)} data holes, same non-text expressions", len(sa) + len(ha))
         else:
             d = (ds or dh)[0]
             ctx.violation(rule, k, where(fb, fb.node), f"{m}: the two generators diverge: C++ `{d[0][:80]}` vs Python `{d[1][:80]}`")
